@@ -557,8 +557,10 @@ def check_mask(col, sb, mask, with_ignores, counter):
                 col.count("required_items_checked", summary["n_required"])
                 col.count("forbidden_items_checked", summary["n_forbidden"])
                 col.count("foreign_generators_seen", summary["foreign_generators"])
-                col.sample({"features": feats, "visibility": vis, "ignore": tag,
-                            "under_test": summary["under_test"]}, every=97)
+                if summary["under_test"] and summary["n_forbidden"]:
+                    col.sample({"features": feats, "visibility": vis, "ignore": tag,
+                                "under_test": summary["under_test"],
+                                "forbidden_definitions": summary["n_forbidden"]}, every=41)
             for lab, sig, what in viol:
                 if ci == 0:
                     baseline.add((lab, sig))
